@@ -1027,6 +1027,9 @@ impl<R: RefCounter, PR: PathRefCounter, H: Header> Memory<R, PR, H> {
   /// - This method must be invoked in the drop impl of `Arena`.
   pub(crate) unsafe fn unmount(&mut self) {
     unsafe {
+      #[cfg(feature = "verif")]
+      crate::verif::unmount(self.ptr as usize, self.cap as usize);
+
       #[cfg(all(feature = "memmap", not(target_family = "wasm")))]
       if self.lock_meta {
         let _ = self.munlock(self.header_offset, mem::size_of::<H>());
